@@ -46,8 +46,12 @@ def run_row(row):
       def tearDown(self):
         log.append(('plug-teardown', time.time()))
 
+    pkw = dict(name='p', timeout_s=T)
+    if row.get('rot'):
+      pkw.update(repeat_on_timeout=True, repeat_limit=2)
+
     @htf.plug(pl=Plug)
-    @htf.PhaseOptions(name='p', timeout_s=T)
+    @htf.PhaseOptions(**pkw)
     def p(test, pl):
       t0 = time.time()
       log.append(('p.start', t0))
@@ -126,6 +130,9 @@ def run_row(row):
   rec = box['rec']
   log = dict(box['log'])
   bad = []
+  starts = sum(1 for e in box['log'] if e[0] == 'p.start')
+  if row.get('rot') and row['outcome'] != 'TIMEOUT' and (starts != 1 or sum(1 for x in rec.phases if x.name == 'p') != 1):
+    bad.append('a body that returned before its deadline was invoked %d times under repeat_on_timeout' % starts)
   from vf import build as b
   ph = {x.name: x for x in rec.phases}
   pr = b.result_kind(ph['p'].result) if 'p' in ph else 'missing'
